@@ -290,11 +290,11 @@ def refs():
 
 
 def c01_quick():
-    return (arith(consumers=('local', 'cmp', 'widen')) + arithlit(tier='quick') + compare() + casts() + unary() + control() + composites() + refs() + lang2() + castuse('quick'))
+    return (arith(consumers=('local', 'cmp', 'widen')) + arithlit(tier='quick') + compare() + casts() + unary() + control() + composites() + refs() + lang2() + castuse('quick') + litforms('quick'))
 
 
 def c01_thorough():
-    return (arith() + arithlit(tier='thorough') + compare() + casts() + unary() + control() + composites() + refs() + lang2() + castuse('thorough'))
+    return (arith() + arithlit(tier='thorough') + compare() + casts() + unary() + control() + composites() + refs() + lang2() + castuse('thorough') + litforms('thorough'))
 
 
 # ------------------------------------------------------------------------------------------------ C04 fixed arrays
@@ -784,9 +784,11 @@ def castuse(tier='quick'):
     out = []
     srcs = [I64, U64, I32, U32] if tier == 'quick' else INTS
     for d in INTS:
-        for s in srcs:
-            if s.bits <= d.bits and tier == 'quick':
-                continue
+        for s in INTS:
+            if tier == 'quick':
+                # narrowing casts from the 32/64-bit sources, and every same-width cast that changes signedness
+                if not ((s in srcs and s.bits > d.bits) or (s.bits == d.bits and s != d)):
+                    continue
             a = Var('a', s)
             head = [Let('a', s, Cast(X, s))] if s != I64 else []
             e = Cast(a if s != I64 else X, d)
@@ -819,17 +821,41 @@ def c02_extra(tier='quick'):
     return out
 
 
+def litforms(tier='quick'):
+    """The same literal value written in different spellings (decimal, leading zeros, digit separators, hex, octal,
+    binary) as an initialiser, an operand, a comparison operand and a match pattern."""
+    out = []
+    forms = [('dec', 17, '17'), ('lead0', 17, '017'), ('lead00', 10, '0010'), ('lead0_755', 755, '0755'), ('lead0_8', 8, '08'), ('sep', 1000, '1_000'),
+             ('hex', 255, '0xFF'), ('oct', 15, '0o17'), ('bin', 10, '0b1010'), ('zero', 0, '0'), ('zeros', 0, '00')]
+    tys = (I32, I64, U8) if tier == 'quick' else (I8, I16, I32, I64, U8, U16, U32, U64)
+    for ty in tys:
+        for name, v, text in forms:
+            if v > ty.max:
+                continue
+            L = lambda: Lit(v, ty, text=text)
+            a = Var('a', ty)
+            head = [Let('a', ty, Cast(X, ty))]
+            body = [Let('r', ty, L()), Return(Cast(Var('r', ty), I64))]
+            out.append(Template('litforms/init/%s/%s' % (ty.name, name), fn1(body), family='litforms'))
+            body = head + [If(Cmp('==', a, L()), [Return(Lit(1, I64))]), Return(Cast(Bin('-', a, L()), I64))]
+            out.append(Template('litforms/cmp_sub/%s/%s' % (ty.name, name), fn1(body), family='litforms'))
+            if ty in (I32, I64):
+                body = head + [Match(a, [(L(), [Return(Lit(5, I64))]), (None, [Return(Lit(6, I64))])])]
+                out.append(Template('litforms/match/%s/%s' % (ty.name, name), fn1(body), family='litforms'))
+    return out
+
+
 def c02(tier='quick', seed=0):
     if tier == 'quick':
         T6 = [I8, I32, I64, U8, U32, U64]
         base = arith(types=T6, consumers=('local', 'cmp')) + arithlit(types=T6, tier='quick') + compare(types=T6) + casts() + unary(types=T6) + control() + composites() + refs() + lang2()
-        out = base + castuse(tier) + c02_extra(tier) + c08(tier) + c18(tier)[::2]
+        out = base + castuse(tier) + c02_extra(tier) + c08(tier) + c18(tier)[::2] + litforms(tier)
         # encoder validation by witness replay (two compiles, one native run, one node run) on a third of the templates
         # per run (which third depends on the seed); counterexamples are always replayed
         for i, t in enumerate(out):
             t.meta = dict(t.meta, replay_witness=(i % 3 == seed % 3))
         return out
-    return c01_thorough() + c02_extra(tier) + c04(tier) + c08(tier) + c18(tier) + c05(tier, 0)
+    return c01_thorough() + c02_extra(tier) + c04(tier) + c08(tier) + c18(tier) + c05(tier, 0) + litforms(tier)
 
 
 # ------------------------------------------------------------------------------------------------ C10 wide literals
@@ -906,6 +932,29 @@ def lang2():
     lf = Func('f', [('a', I32), ('b', I32)], I32, [Return(Bin('-', Bin('+', Var('a', I32), Lit(3, I32)), Var('b', I32)))])
     body = [FuncLitLet('f', lf), Let('u', I32, Call('f', [Cast(X, I32), Cast(Y, I32)], I32)), Let('v', I32, Call('f', [Var('u', I32), Lit(1, I32)], I32)), Return(Cast(Var('v', I32), I64))]
     out.append(Template('lang/funclit_twice', fn2(body), family='lang'))
+    # closures: variables of the enclosing function are captured by reference
+    for ty in (I64, I32):
+        tn = ty.name
+        p, q, d, c = Var('p', ty), Var('q', ty), Var('d', ty), Var('c', ty)
+        # a parameter modified BEFORE the literal that captures it is created
+        lf = Func('f', [('d', ty)], ty, [Return(Bin('+', p, d))])
+        outer = Func('outer', [('p', ty), ('q', ty)], ty, [Assign(p, Bin('+', p, Lit(5, ty))), FuncLitLet('f', lf), Return(Call('f', [q], ty))])
+        body = [Return(Cast(Call('outer', [Cast(X, ty), Cast(Y, ty)], ty), I64))]
+        out.append(Template('lang/closure_param_modified_before/%s' % tn, fn2(body, extra=[outer]), family='lang'))
+        # ... modified with ++ and +=, then captured, then modified again: the literal sees the latest value
+        lf = Func('f', [], ty, [Return(p)])
+        outer = Func('outer', [('p', ty), ('q', ty)], ty, [IncDec(p, '++'), OpAssign(p, '+', q), FuncLitLet('f', lf), Let('a', ty, Call('f', [], ty)),
+                                                         Assign(p, Bin('-', p, Lit(3, ty))), Let('b', ty, Call('f', [], ty)), If(Cmp('!=', Bin('-', Var('a', ty), Var('b', ty)), Lit(3, ty)), [Return(Lit(-7, ty))]), Return(Var('a', ty))])
+        out.append(Template('lang/closure_param_modified_around/%s' % tn, fn2(body, extra=[outer]), family='lang'))
+        # a local counter incremented by the literal: both sides see the writes
+        lf = Func('inc', [], ty, [Assign(c, Bin('+', c, Lit(1, ty))), Return(c)])
+        body2 = [Let('c', ty, Cast(X, ty)), FuncLitLet('inc', lf), Let('a', ty, Call('inc', [], ty)), Assign(c, Bin('+', c, Cast(Y, ty))), Let('b', ty, Call('inc', [], ty)),
+                 If(Cmp('!=', Var('b', ty), c), [Return(Lit(-7, I64))]), Return(Bin('-', Cast(Var('a', ty), I64), Cast(c, I64)))]
+        out.append(Template('lang/closure_counter/%s' % tn, fn2(body2), family='lang'))
+        # the literal captures a parameter and a local; the parameter is never modified
+        lf = Func('f', [('d', ty)], ty, [Return(Bin('+', Bin('+', p, p), Bin('-', Var('k', ty), d)))])
+        outer = Func('outer', [('p', ty), ('q', ty)], ty, [Let('k', ty, Bin('+', q, Lit(1, ty))), FuncLitLet('f', lf), Return(Call('f', [q], ty))])
+        out.append(Template('lang/closure_param_and_local/%s' % tn, fn2(body, extra=[outer]), family='lang'))
     # value receiver: the method works on a copy
     CT = StructT('Cnt', [('V', I32), ('W', I64)])
     bump = Func('bump', [], I32, [Assign(Field(Var('c', CT), 'V'), Bin('+', Field(Var('c', CT), 'V'), Lit(1, I32))), Return(Field(Var('c', CT), 'V'))], recv=('c', CT))
